@@ -1,7 +1,7 @@
 (* C10: state variables never alias; reported layout = used layout.
    Property theorems (proved in AllocProofs.v / Paths.v / OverrideProofs.v) + non-vacuity examples. *)
 From Coq Require Import ZArith Bool List String Lia.
-From Verif Require Import Base.PyInt Base.Word256 C03.LIR C10.GenAlloc C10.Layout C10.Alloc C10.Paths C10.AllocProofs C10.OverrideProofs C10.AddrTemplates C03.VSL C10.VAddrTemplates.
+From Verif Require Import Base.PyInt Base.Word256 C03.LIR C10.GenAlloc C10.Layout C10.Alloc C10.Paths C10.AllocProofs C10.OverrideProofs C10.AddrTemplates C03.VSL C10.VAddrTemplates C10.VAddrPath C10.VMapTemplates C10.RoundTrip.
 Import ListNotations.
 Open Scope Z_scope.
 
@@ -146,6 +146,63 @@ Theorem venom_addr_code_matches_layout : forall ws signed t s e pv x l tpl c o c
 Proof. exact vaddr_step_correct. Qed.
 Print Assumptions venom_addr_code_matches_layout.
 
+(* round 4: layout_override (layout_export m) == layout m.  Feeding the exported storage layout back as an override
+   file (every storage variable at its exported slot, lock key at its exported slot) is accepted and reproduces the
+   same storage positions and the same transient / immutables entries *)
+Theorem export_override_roundtrip : forall lockloc nr ds slot es,
+  sizes_nonneg ds -> NoDup (map (fun v => fst (fst v)) (flatten [] ds)) ->
+  allocate lockloc ds = Ok (slot, es) ->
+  allocate_override lockloc nr ds (export_as_override es) (Some slot) =
+    Ok (ns_entries es, map (fun e => (e_path e, e_off e)) (st_entries es)).
+Proof. exact export_override_roundtrip_l. Qed.
+Print Assumptions export_override_roundtrip.
+
+(* round 4: composition over whole access paths.  The venom program for a path (per-step templates, SSA names
+   canonicalised per level; matched syntactically against the real recursive lowering on every run) leaves in its
+   result variable  base + ws * o  where o is the Layout.resolve offset of the path with the run-time indices, and
+   that offset lies inside the variable: 0 <= o and o + size(t') <= size(t)  -- for every path and all in-range indices *)
+Theorem venom_path_in_bounds : forall path ws signs t e pv q fin o t',
+  (ws = 1 \/ ws = 32) -> (List.length path < 100)%nat -> wf t ->
+  vaddr_path ws signs 0 t path "base" = Some (q, fin) ->
+  lookup e "base"%string = Some pv -> 0 <= pv < W ->
+  vpath_ok e signs 0 t path o t' ->
+  (exists e1, vsl e q = VOk e1 /\ lookup e1 fin = Some (wrap (pv + ws * o))) /\
+  resolve t (concrete e signs 0 path) = Some (o, t') /\
+  0 <= o /\ o + size_words t' <= size_words t.
+Proof. exact vaddr_path_in_bounds_l. Qed.
+Print Assumptions venom_path_in_bounds.
+
+(* venom HashMap lowering (key buffer + sha3): H2 a b = keccak256(a ++ b), HB mem p n = keccak256 of n bytes at p
+   are abstract; one level yields H2 slot key, byte-string keys are hashed first, n nested levels give chainH *)
+Theorem venom_mapping_slot : forall (H2 : Z -> Z -> Z) (HB : (Z -> Z) -> Z -> Z -> Z),
+  (forall ob oo orr slot key st b k a rest,
+     ob <> oo -> avoids slot [ob] -> avoids key [ob] -> avoids key [oo] ->
+     vval (h_env st) slot = Some b -> vval (h_env st) key = Some k ->
+     h_fresh st = a :: rest -> 0 <= a < W ->
+     exists st', hrun H2 HB st (map_word ob oo orr slot key) = Some st' /\
+       lookup (h_env st') orr = Some (H2 b k) /\ h_fresh st' = rest /\
+       (forall s, s <> ob -> s <> oo -> s <> orr -> lookup (h_env st') s = lookup (h_env st) s) /\
+       (forall x, x <> a -> x <> w_add a 32 -> h_mem st' x = h_mem st x)) /\
+  (forall od on ok kp st p, od <> on -> avoids kp [od] -> vval (h_env st) kp = Some p ->
+     exists st', hrun H2 HB st (key_bytes od on ok kp) = Some st' /\
+       lookup (h_env st') ok = Some (HB (h_mem st) (w_add p 32) (h_mem st p)) /\
+       h_fresh st' = h_fresh st /\ h_mem st' = h_mem st /\
+       (forall s, s <> od -> s <> on -> s <> ok -> lookup (h_env st') s = lookup (h_env st) s)) /\
+  (forall nlev j slot st b ks,
+     (3 * (j + nlev) < 100)%nat -> List.length ks = nlev -> List.length (h_fresh st) = nlev ->
+     Forall (fun a => 0 <= a < W) (h_fresh st) -> vval (h_env st) slot = Some b ->
+     (match slot with VVar s => (forall i, (3 * j <= i < 100)%nat -> s <> tn i) | VLit _ => True end) ->
+     (forall i, (i < nlev)%nat -> lookup (h_env st) (kn (j + i)) = Some (nth i ks 0)) ->
+     exists st', hrun H2 HB st (fst (map_chain j slot nlev)) = Some st' /\
+                 vval (h_env st') (snd (map_chain j slot nlev)) = Some (chainH H2 b ks)).
+Proof.
+  intros H2 HB. split; [|split].
+  - apply map_word_correct.
+  - apply key_bytes_correct.
+  - apply map_chain_correct.
+Qed.
+Print Assumptions venom_mapping_slot.
+
 (* nested HashMaps: entries behind different (variable, key chain) never overlap, and never reach the static area *)
 Theorem chained_maps_distinct :
   forall (H : Z -> Z -> Z) (BOUND : Z), 0 < BOUND ->
@@ -223,6 +280,12 @@ Example addr_nonvacuous :
             leval [("base", 100); ("ix0", 1); ("ix1", 2); ("len1", 3); ("ix3", 0)] q = Val 127 /\
             leval [("base", 100); ("ix0", 1); ("ix1", 3); ("len1", 3); ("ix3", 0)] q = Revert.
 Proof. cbv zeta. eexists. split; [reflexivity|]. repeat split; vm_compute; reflexivity. Qed.
+
+Example venom_path_nonvacuous :
+  let t := TSArr (TDArr (TStruct [TWord; TSArr TWord 3]) 4) 2 in
+  exists q fin, vaddr_path 1 [false; true; false; false] 0%nat t [SIdx 0; SIdx 0; SField 1%nat; SIdx 0] "base" = Some (q, fin) /\
+    exists e1, vsl [("base", 100); ("0p1", 1); ("1p1", 2); ("1ld0", 3); ("3p1", 0)] q = VOk e1 /\ lookup e1 fin = Some 127.
+Proof. cbv zeta. eexists. eexists. split; [reflexivity|]. eexists. split; vm_compute; reflexivity. Qed.
 
 Example override_nonvacuous :
   let rs := reqs_module true [DVar "a" LStorage 1; DInit "l" true [DVar "b" LStorage 3]] in
